@@ -461,19 +461,20 @@ HelloMap(hs) ==
 \* a message has the layout sk = [len, pos, val] (positions and values of its length fields and type codes)
 SkelOK(b, sk) == Len(b) = sk.len /\ \A j \in DOMAIN sk.pos : b[sk.pos[j]] = sk.val[j]
 \* digest of a byte string (the harness logs the same polynomial hash of what it sent)
-RECURSIVE Dg(_,_,_)
-Dg(b, i, a) == IF i > Len(b) THEN a ELSE Dg(b, i + 1, (a * 257 + b[i] + 1) % 1000003)
-Digest(b) == Dg(b, 1, 7)
+SX == INSTANCE SequencesExt
+Digest(b) == SX!FoldLeft(LAMBDA a, x : (a * 257 + x + 1) % 1000003, 7, b)
+
 Outcomes == {"ok", "error"}          \* the only acceptable results of a call on hostile input
 SlackMs == 1000                       \* scheduling tolerance on "returns within the connection deadline"
 AllocSlackKB == 1024                  \* a mutated message (< 64 KiB) may not cost more than the untouched flight + 1 MiB
+\* alert descriptions the library can name (alert.go); "" = no alert seen by the peer
 Alerts == {"", "close notify", "unexpected message", "bad record MAC", "decryption failed", "record overflow", "decompression failure",
            "handshake failure", "bad certificate", "unsupported certificate", "revoked certificate", "expired certificate",
            "unknown certificate", "illegal parameter", "unknown certificate authority", "access denied", "error decoding message",
            "error decrypting message", "export restriction", "protocol version not supported", "insufficient security level",
            "internal error", "inappropriate fallback", "user canceled", "no renegotiation", "missing extension", "unsupported extension",
            "certificate unobtainable", "unrecognized name", "bad certificate status response", "bad certificate hash value",
-           "unknown PSK identity", "certificate required", "no application protocol", "ECH required"}
+           "unknown PSK identity", "certificate required", "no application protocol", "encrypted client hello required"}
 
 \* a record that holds a syntactically valid ClientHello (what FingerprintClientHello expects)
 ValidHelloRecord(r) == /\ Len(r) >= 5 /\ IsBytes(r) /\ r[1] = 22 /\ RdU16(r, 4) = Len(r) - 5
